@@ -143,6 +143,15 @@ def catalogue():
         ("blob-missing-format", new_vec("BLOB", "DEV", "BLOB_V", [one_child("BLOB", "B0", None, " NOFORMAT")]), {("BLOB_V", "B0")}),
         ("blob-empty-payload", new_vec("BLOB", "DEV", "BLOB_V", ['<oneBLOB name="B0" size="0" format=""/>']), {("BLOB_V", "B0")}),
         ("client-sends-defTextVector", '<defTextVector device="DEV" name="TEXT_V" state="Ok" perm="rw"><defText name="T0">spoof</defText></defTextVector>', set()),
+        # definitions whose free-text fields (limits, format) are not what a number property would carry: the parser takes them, the
+        # router relays them - among others to the client model of a snooping driver
+        ("client-sends-defNumberVector-with-word-limits", '<defNumberVector device="DEV" name="NUMBER_V" state="Ok" perm="rw"><defNumber name="N0" format="%f" min="lowest" max="highest" step="any">1</defNumber></defNumberVector>', set()),
+        ("client-sends-defNumberVector-with-empty-limits", '<defNumberVector device="DEV" name="NUMBER_V" state="Ok" perm="rw"><defNumber name="N0" format="%f" min="" max="" step="">1</defNumber></defNumberVector>', set()),
+        ("client-sends-defNumberVector-with-odd-format", '<defNumberVector device="DEV" name="NUMBER_V" state="Ok" perm="rw"><defNumber name="N0" format="%9.4m" min="0" max="1" step="0">1</defNumber><defNumber name="N1" format="%s %s" min="0" max="1" step="0">1</defNumber><defNumber name="N2" format="" min="0" max="1" step="0">1:30</defNumber></defNumberVector>', set()),
+        ("client-sends-defNumberVector-for-a-new-property", '<defNumberVector device="DEV" name="SPOOF_V" state="Ok" perm="ro"><defNumber name="X" format="%d" min="1e999" max="-1e999" step="nan">inf</defNumber></defNumberVector>', set()),
+        ("client-sends-defSwitchVector-with-other-members", '<defSwitchVector device="DEV" name="SWITCH_V" state="Ok" perm="rw" rule="OneOfMany"><defSwitch name="ZZ">On</defSwitch><defSwitch name="S1">On</defSwitch></defSwitchVector>', set()),
+        ("client-sends-defBLOBVector", '<defBLOBVector device="DEV" name="BLOB_V" state="Ok" perm="rw"><defBLOB name="B0"/></defBLOBVector>', set()),
+        ("client-sends-defLightVector", '<defLightVector device="DEV" name="LIGHT_V" state="Alert"><defLight name="L0">Alert</defLight></defLightVector>', set()),
         ("client-sends-setTextVector", '<setTextVector device="DEV" name="TEXT_V" state="Alert"><oneText name="T0">spoof</oneText></setTextVector>', set()),
         ("client-sends-setBLOBVector", '<setBLOBVector device="DEV" name="BLOB_V" state="Ok"><oneBLOB name="B0" size="3" format=".b">QUJD</oneBLOB></setBLOBVector>', set()),
         ("client-sends-delProperty", '<delProperty device="DEV" name="TEXT_V"/>', set()),
